@@ -1,4 +1,5 @@
 """C09 — the `error` argument decides exactly what a violation raises."""
+import inspect
 import itertools
 import os
 from typing import Any, Dict, List
@@ -279,8 +280,85 @@ def run_invalid(w) -> None:
         loaded.unload()
 
 
+OVERRULED_SOURCE = '''
+import icontract
+
+
+def base_error(x):
+    return HUB.error("base", {{"x": x}})
+
+
+def derived_error(x):
+    return HUB.error("derived", {{"x": x}})
+
+
+def sloppy_error(x):
+    HUB.log("error", "sloppy", {{"x": x}}, None)
+    return "not an exception"
+
+
+class Base(icontract.DBC):
+    @icontract.require(lambda x: HUB.cond("c_base", {{"x": x}}), error=base_error)
+    {a}def do(self, x):
+        return HUB.body("do", {{}})
+
+    @icontract.require(lambda x: HUB.cond("c_sloppy", {{"x": x}}), error=sloppy_error)
+    {a}def sloppy(self, x):
+        return HUB.body("sloppy", {{}})
+
+
+class Derived(Base):
+    @icontract.require(lambda x: HUB.cond("c_derived", {{"x": x}}), error=derived_error)
+    {a}def do(self, x):
+        return HUB.body("do", {{}})
+
+    @icontract.require(lambda x: HUB.cond("c_derived", {{"x": x}}), error=derived_error)
+    {a}def sloppy(self, x):
+        return HUB.body("sloppy", {{}})
+'''
+
+
+def run_overruled_group_factories(w) -> None:
+    """Two precondition groups (a DBC override which states a precondition of its own): the error function of a violated group which a
+    later group overrules - or which is not the last group tried - has no say in what the call raises: only the error of the violation
+    that IS raised decides it (a factory that returns a non-exception for the overruled group does not turn a valid call into a
+    TypeError). Sync and async."""
+    for is_async in (False, True):
+        loaded = prog.load_source(OVERRULED_SOURCE.format(a="async " if is_async else ""), w.scratch())
+        mod, hub = loaded.module, loaded.hub
+        try:
+            for member, truth, want_outcome in (
+                    ("do", {"c_base": False}, "returned"), ("do", {"c_base": False, "c_derived": False}, "derived"),
+                    ("sloppy", {"c_sloppy": False}, "returned"), ("sloppy", {"c_sloppy": False, "c_derived": False}, "derived"),
+                    ("do", {}, "returned")):
+                hub.reset()
+                hub.truth = dict(truth)
+                exc = None
+                try:
+                    res = getattr(mod.Derived(), member)(probe.Tok("x"))
+                    if inspect.iscoroutine(res):
+                        probe.drive(res)
+                    outcome = "returned"
+                except BaseException as err:  # pylint: disable=broad-except
+                    exc = err
+                    made = hub.factory_made.get("derived", [])
+                    outcome = "derived" if made and err is made[-1] else "raised {}: {}".format(type(err).__name__, str(err)[:120])
+                w.count("violations_raised" if exc is not None else "overruled_group_calls_returned")
+                w.count("factory_calls", sum(1 for e in hub.events if e.kind == "error"))
+                w.count("overruled_group_calls")
+                w.case(("overruled-group-factory", member, tuple(sorted(truth)), is_async))
+                if outcome != want_outcome:
+                    w.violation("C09/error-of-an-overruled-group-decides-the-outcome", "Derived().{}(x) [{}] with {}: {} (expected {})".format(
+                        member, "async" if is_async else "sync", sorted(truth), outcome, want_outcome),
+                        {"overruled_factories": member, "async": is_async, "truth": sorted(truth)})
+        finally:
+            loaded.unload()
+
+
 def run(w) -> None:
     w.exhaustive = False
+    if w.shard == 1 % w.nshards:
+        run_overruled_group_factories(w)
     for spec, calls in programs(w):
         w.count("programs")
         model = Model(spec)
@@ -298,6 +376,9 @@ def run(w) -> None:
 
 
 def replay(case, w) -> None:
+    if "overruled_factories" in case:
+        run_overruled_group_factories(w)
+        return
     if "prog" not in case:
         run_invalid(w)
         return
